@@ -99,7 +99,7 @@ contains_all_subpages		(const vbi_page_table *pt,
 	uint32_t mask;
 	unsigned int offset;
 
-	mask = 1 << (pgno & 31);
+	mask = (uint32_t) 1 << (pgno & 31);
 	offset = (pgno - 0x100) >> 5;
 
 	return (0 != (pt->pages[offset] & mask));
@@ -274,7 +274,7 @@ vbi_page_table_next_subpage	(const vbi_page_table *pt,
 		}
 	}
 
-	mask = -1 << (next_pgno & 31);
+	mask = ~(uint32_t) 0 << (next_pgno & 31);
 	offset = (next_pgno - 0x100) >> 5;
 	mask &= pt->pages[offset];
 
@@ -297,7 +297,7 @@ vbi_page_table_next_subpage	(const vbi_page_table *pt,
 	next_pgno += __builtin_ffs (mask) - 1;
 #else
 	for (i = 0; i < 32; ++i) {
-		if (0 != (mask & (1 << i))) {
+		if (0 != (mask & ((uint32_t) 1 << i))) {
 			next_pgno += i;
 			break;
 		}
@@ -512,7 +512,7 @@ vbi_page_table_remove_subpages	(vbi_page_table *	pt,
 	if (first_subno > last_subno)
 		SWAP (first_subno, last_subno);
 
-	mask = 1 << (pgno & 31);
+	mask = (uint32_t) 1 << (pgno & 31);
 	offset = (pgno - 0x100) >> 5;
 
 	if (0 != (pt->pages[offset] & mask)) {
@@ -745,11 +745,11 @@ vbi_page_table_remove_pages	(vbi_page_table *	pt,
 	remove_subpages_in_page_range (pt, first_pgno, last_pgno);
 
 	/* 0 -> 0xFFFF FFFF, 1 -> 0xFFFF FFFE, 31 -> 0x8000 0000. */
-	first_mask = -1 << (first_pgno & 31);
+	first_mask = ~(uint32_t) 0 << (first_pgno & 31);
 	first_offset = (first_pgno - 0x100) >> 5;
 
 	/* 0 -> 0x01, 1 -> 0x03, 31 -> 0xFFFF FFFF. */
-	last_mask = ~(-2 << (last_pgno & 31));
+	last_mask = ~(~(uint32_t) 1 << (last_pgno & 31));
 	last_offset = (last_pgno - 0x100) >> 5;
 
 	if (first_offset != last_offset) {
@@ -821,11 +821,11 @@ vbi_page_table_add_pages	(vbi_page_table *	pt,
 	remove_subpages_in_page_range (pt, first_pgno, last_pgno);
 
 	/* 0 -> 0xFFFF FFFF, 1 -> 0xFFFF FFFE, 31 -> 0x8000 0000. */
-	first_mask = -1 << (first_pgno & 31);
+	first_mask = ~(uint32_t) 0 << (first_pgno & 31);
 	first_offset = (first_pgno - 0x100) >> 5;
 
 	/* 0 -> 0x01, 1 -> 0x03, 31 -> 0xFFFF FFFF. */
-	last_mask = ~(-2 << (last_pgno & 31));
+	last_mask = ~(~(uint32_t) 1 << (last_pgno & 31));
 	last_offset = (last_pgno - 0x100) >> 5;
 
 	if (first_offset != last_offset) {
